@@ -928,7 +928,44 @@ func (c *fctx) getterField(call *ast.CallExpr) (recv ast.Expr, field string, ok 
 // (the caller's *JobDetail, say) are outside the translation — see the file header.
 type pathStep struct {
 	field string
-	opt   bool // the value the field is selected from is a pointer / interface (Option)
+	opt   bool   // the value the field is selected from is a pointer / interface (Option)
+	ctype string // Lean structure the field is selected from
+}
+
+// aliasCapable: a variable of this type may point (directly or through fields) to the objects mutated by a field
+// assignment through a pointer
+func (c *fctx) aliasCapable(ty types.Type) bool {
+	n := namedOf(ty)
+	if n == nil || !c.t.inQuartz(n.Obj()) {
+		return false
+	}
+	if !isPointer(ty) && !types.IsInterface(ty) {
+		return false
+	}
+	switch n.Obj().Name() {
+	case sjIface, sjStruct, "JobDetail", "JobDetailOptions":
+		return true
+	}
+	return false
+}
+
+// noLiveAlias: after `root.path = v` through a pointer, no OTHER pointer variable defined before the assignment is used
+// (it might point to the same Go object, which the value-semantic translation would not update)
+func (c *fctx) noLiveAlias(lhs ast.Expr, root *types.Var) {
+	ast.Inspect(c.f.decl.Body, func(n ast.Node) bool {
+		id, ok := n.(*ast.Ident)
+		if !ok || id.Pos() <= lhs.End() {
+			return true
+		}
+		v, ok := c.info.Uses[id].(*types.Var)
+		if !ok || v == root || v.IsField() || v.Pos() >= lhs.Pos() || v == c.recvObj {
+			return true
+		}
+		if c.aliasCapable(v.Type()) {
+			fail("%s is used after the assignment through the pointer %s at %s and may alias the object it changes", v.Name(), root.Name(), c.t.posOf(lhs))
+		}
+		return true
+	})
 }
 
 func (c *fctx) assignText(lhs ast.Expr, val string) string {
@@ -949,6 +986,7 @@ func (c *fctx) assignText(lhs ast.Expr, val string) string {
 	var steps []pathStep // steps[0] is the assigned field, steps[len-1] is selected from the root variable
 	cur := lhs
 	root := ""
+	var rootVar *types.Var
 	for root == "" {
 		cur = unparen(cur)
 		switch x := cur.(type) {
@@ -958,6 +996,7 @@ func (c *fctx) assignText(lhs ast.Expr, val string) string {
 				fail("assignment through %s at %s", x.Name, c.t.posOf(lhs))
 			}
 			root = leanIdent(x.Name)
+			rootVar = v
 			if c.info.Uses[x] == c.recvObj {
 				if c.kind == kindSched {
 					fail("assignment to a scheduler field at %s", c.t.posOf(lhs))
@@ -978,14 +1017,14 @@ func (c *fctx) assignText(lhs ast.Expr, val string) string {
 			if !c.t.hasField(n.Obj().Name(), x.Sel.Name) {
 				fail("field %s.%s is not translated", n.Obj().Name(), x.Sel.Name)
 			}
-			steps = append(steps, pathStep{x.Sel.Name, isPointer(bt) && !c.isRecv(x.X)})
+			steps = append(steps, pathStep{x.Sel.Name, isPointer(bt) && !c.isRecv(x.X), n.Obj().Name()})
 			cur = x.X
 		case *ast.CallExpr:
 			recv, field, ok := c.getterField(x)
 			if !ok {
 				fail("assignment through the call %s at %s", exprText(x), c.t.posOf(lhs))
 			}
-			steps = append(steps, pathStep{field, true}) // x.M() is (deref x).field for a checked getter M
+			steps = append(steps, pathStep{field, true, sjStruct}) // x.M() is (deref x).field for a checked getter M
 			cur = recv
 		default:
 			fail("assignment target %s at %s", exprText(lhs), c.t.posOf(lhs))
@@ -1002,9 +1041,15 @@ func (c *fctx) assignText(lhs ast.Expr, val string) string {
 	lift = func(i int, target string) string {
 		if steps[i].opt {
 			x := fmt.Sprintf("x%d", len(steps)-i)
-			return target + ".map (fun " + x + " => " + build(i, x) + ")"
+			return target + ".map (fun (" + x + " : " + steps[i].ctype + ") => " + build(i, x) + ")"
 		}
 		return build(i, target)
+	}
+	for _, st := range steps {
+		if st.opt {
+			c.noLiveAlias(lhs, rootVar)
+			break
+		}
 	}
 	return "let " + root + " := " + lift(len(steps)-1, root) + "\n"
 }
